@@ -182,7 +182,7 @@ type SeqMem struct {
 	memo    []seqEntry // materialised symbolic elements of the base
 	parent    *SeqMem // append: elements below parentLen are the parent's
 	parentLen *Term
-	allWF     *Term // elements with index < allWF satisfy wf (assumed universal fact, instantiated at reads)
+	allWF     map[string]*Term // predicate name -> bound: elements with index < bound satisfy the predicate (assumed universal facts, instantiated at reads)
 }
 
 // ---------- helper functions on types ----------
